@@ -158,7 +158,7 @@ def run(ctx):
         traces = framework.pool_map(_job, jobs + rjobs)
     with drv.phase(ctx, "validate"):
         ctx.validate(FAM, "Trace_HttpWriter", "Trace_HttpWriter.cfg", traces, label="s2c+c2s",
-                     sig_fn=drv.with_kind(sig_of, base + 1))
+                     sig_fn=drv.with_kind(sig_of, base + 1), timeout=900)
     # 4. HEAD vs GET under the gzip output transform (Content-Length of a HEAD = length of the body a GET carries)
     from checks import C29
     with drv.phase(ctx, "head_vs_get"):
@@ -184,7 +184,7 @@ def replay(ctx, rec):
     # a program that raised stops there; re-execute exactly the recorded calls
     t2 = drv.program_trace(t["id"], t["cfg"], ops)
     same = t2["ev"] == t["ev"] or [e for e in t2["ev"] if e["a"] != "response"] == [e for e in t["ev"] if e["a"] != "response"]
-    v = ctx.validate(FAM, "Trace_HttpWriter", "Trace_HttpWriter.cfg", [t2], label="replay", sig_fn=sig_of, shards=1)
+    v = ctx.validate(FAM, "Trace_HttpWriter", "Trace_HttpWriter.cfg", [t2], label="replay", sig_fn=sig_of, shards=1, timeout=900)
     bad = v[t2["id"]]
     out = bytes(t2["ev"][-1]["obs"]["out"])
     print("replay: ops=%s cfg=%s" % (ops, t["cfg"]))
